@@ -514,6 +514,9 @@ def generic_check(mod, tier, seed):
             uniq.append(c)
     cases = uniq
     evaluate(binpath, cases, timeout_s=getattr(mod, "TIMEOUT", 5.0))
+    if hasattr(mod, "recheck"):
+        # optional module hook: re-run suspicious cases (e.g. watchdog hits under machine load) on their own
+        mod.recheck(binpath, cases)
     failing, mismatching = classify_cases(mod, cases, known, res)
 
     if (broken_names or mismatching) and not failing and tier == "quick":
